@@ -57,14 +57,11 @@ def run(ctx):
                    'start, stop and step of the loop'))
     # re-evaluate the helper (same rule as C10 R1)
     gp = m.get_function(SYM, 'get_pyrange')
+    from sa.rules.c10 import stop_adjustments
     bad = None
-    for call, guards in X.nodes_with_guards(gp.node, lambda x: isinstance(x, ast.Call) and isinstance(x.func, ast.Name) and x.func.id == 'range'):
-        if len(call.args) == 3:
-            stop = call.args[1]
-            const_adj = isinstance(stop, ast.BinOp) and isinstance(stop.op, (ast.Add, ast.Sub)) and isinstance(stop.right, ast.Constant)
-            sign_guard = any(('< 0' in g or '> 0' in g or 'sign' in g) and 'step' in g for g in guards)
-            if const_adj and not sign_guard:
-                bad = call
+    for call, ok_, _facts in stop_adjustments(gp.node):
+        if not ok_:
+            bad = call
     sign_in_unroller = any(('step' in g and ('< 0' in g or '> 0' in g)) for _, gs in
                            X.nodes_with_guards(vl.node, lambda x: x is calls[0]) for g in gs)
     if bad is not None and not sign_in_unroller:
@@ -120,6 +117,9 @@ def run(ctx):
 MUTANTS = [
     Mutant('unroller-drops-step', TL, "            unroll_range = get_pyrange(LoopRange((start, stop, step)))", "            unroll_range = get_pyrange(LoopRange((start, stop)))",
            expect=('R1', 'visit_Loop:range'), quick=True),
+    Mutant('pyrange-descending-branch-removed', SYM,
+           "    if step < 0:\n        # Descending loop: the (inclusive) bound is the smallest value\n        return range(LEM(loop_range.start), ceil(LEM(loop_range.stop))-1, step)\n",
+           "", expect=('R1', 'descending-step')),
     Mutant('polyhedron-accepts-steps', 'loki/analyse/util_polyhedron.py', "            assert loop_range.step is None or loop_range.step == \"1\"\n", "",
            expect=('R2', 'step-assert')),
     Mutant('unroll-skips-last', TL, "[SubstituteExpressions({o.variable: sym.IntLiteral(i)}).visit(o.body) for i in unroll_range]",
